@@ -1,6 +1,6 @@
 use convert_case::Casing;
 use proc_macro2::TokenStream;
-use proc_macro_error::emit_error;
+use proc_macro_error::abort;
 use quote::{quote, ToTokens};
 use syn::fold::Fold;
 use syn::spanned::Spanned;
@@ -53,7 +53,7 @@ pub fn extract_return_type(ret_type: &ReturnType) -> &Path {
 
     // In case of aliased result user need to define the return type by hand
     if segment.ident != "Result" && segment.ident != "StdResult" {
-        emit_error!(
+        abort!(
             segment.span(),
             "Neither Result nor StdResult found in return type. \
                     You might be using aliased return type. \
